@@ -150,7 +150,12 @@ Record odecl := {
   o_impl : bool;             (* oauth2_proxy / oauth2-proxy *)
   o_prefix_ok : bool;        (* oauth-uri-prefix, trailing slashes trimmed, is not empty
                                 (fixes/C18-oauth-empty-prefix.patch) *)
-  o_backend : option N;      (* findBackend(namespace, uriPrefix) *)
+  o_backend : option N;      (* findBackend(hostname, namespace, uriPrefix): the backend of the
+                                host path whose path is the prefix -- own host first, then the
+                                hosts in order.  Modelled fact: only a path that HAS a backend (of
+                                the namespace of the declaration) is a candidate; a redirect-only
+                                path (Host.AddRedirect, empty backend id) never is, whatever
+                                DynamicConfig.CrossNamespaceServices says *)
   o_prefix : N;              (* id of AllowedPath = uriPrefix + "/" *)
   o_tag : N
 }.
